@@ -2,8 +2,53 @@
 from .render_block import *
 from .render_kitty import *
 from .render_iterm2 import *
+from . import C04 as _C04   # noqa: F401  (the AUTO rule whichever argument carries it: advertised height = rendered height for dynamic sizes)
 
 TRUSTED = ["terminal model of DESIGN appendix A (pyvc/tstr.py VT): the real control-sequence templates are lexed character by character",
            "_get_render_data returns flattened row-major pixel lists of length width*height with components in [0, 255] (PIL)"]
 ASSUMPTIONS = ["multi-line renders are anchored at column 0 of the cursor's row (ONLCR newline), as the library assumes throughout"]
 NOT_DECIDED = []
+
+
+# ------------------------------------------------------------------------------------------------ the terminal identity the renders rely on
+import z3                                                    # noqa: E402
+from pyvc.runner import unit, run_function                   # noqa: E402
+from pyvc.values import *                                    # noqa: E402,F401,F403
+from pyvc.engine import State                                # noqa: E402
+
+
+@unit("C01", "common:GraphicsImage.__new__")
+def u_graphics_new(ctx):
+    """The render units above take the class's terminal identity (`_TERM`, which selects the quirk mode: WezTerm's erase, Konsole's
+    cursor handling) as given.  It is `is_supported()` that determines it, so no instance may come into being without it having
+    run - also when support is forced (the documented purpose of the call order in __new__); and construction is refused exactly
+    when the style is neither supported nor forced."""
+    obs = []
+    for forced in (True, False):
+        eng = ctx.engine(f"C01/GraphicsImage.__new__[forced-support={forced}]", "C01")
+        eng.default_replay = "C01.forced_support_quirks"
+        st = State()
+        eng.genv["StyleError"] = ClassV("StyleError")
+        eng.exc_parents["StyleError"] = "TermImageError"
+        supported = z3.Bool("terminal_supports_the_style")
+        cls = st.new("stylecls", {"_forced_support": forced, "__name__": "SomeGraphicsImage"})
+        st.ghost["identity_determined"] = False
+
+        def is_supported(e, s, recv, a, k):
+            s = e.fork(s)
+            s.ghost["identity_determined"] = True            # (sets _TERM & co. as a side effect: iterm2 / kitty is_supported units)
+            return [(supported, s)]
+        eng.methods[("stylecls", "is_supported")] = is_supported
+        inst = st.new("instance", {})
+        eng.genv["super"] = Fn(lambda e, s, a, k: [(Rec("super", {}), s)])
+        eng.attrs[("super", "__new__")] = lambda e, s, v: [(Fn(lambda e2, s2, a, k: [(inst, s2)]), s)]
+        st.env.update(cls=cls, image=Opaque("image"), width=None, height=None)
+        outs = run_function(eng, ctx.fn("image/common.py", "GraphicsImage.__new__"), st)
+        for kind, val, s in outs:
+            if kind == "raise":
+                eng.oblige("refused-only-when-neither-supported-nor-forced(StyleError)", s, And(val.cls == "StyleError", Not(supported), not forced), kind="raise")
+                continue
+            eng.oblige("an-instance-exists-only-after-is_supported()-determined-the-terminal-identity(also-with-forced-support)", s,
+                       And(val is inst, s.ghost["identity_determined"] is True, Or(supported, forced)), kind="post")
+        obs += eng.obligations
+    return obs
